@@ -144,11 +144,13 @@ class Exec:
         # E-matching is order-sensitive: an obligation counts as discharged when ANY attempt answers unsat (sound), so a
         # verdict does not flip with the scheduling of fresh names; a second and third seed are tried before cvc5.
         for attempt in range(1 + self.retries):
-            s = make_solver(self.z3_timeout_ms)
-            if attempt:
+            s = make_solver(self.z3_timeout_ms if attempt or not self.retries else min(self.z3_timeout_ms, 5000))
+            if attempt == 1:
+                s.set("smt.relevancy", 0)        # E-matching on every ground term, not only the 'relevant' ones
+            elif attempt:
                 s.set("random_seed", attempt)
                 s.set("smt.random_seed", attempt)
-            s.add(*(asserts if attempt % 2 == 0 else list(reversed(asserts))))
+            s.add(*(asserts if attempt != 2 else list(reversed(asserts))))
             r = s.check()
             if r != z3.unknown:
                 break
@@ -382,6 +384,8 @@ class Exec:
             n = lit(container.n)
             if n is not None and n <= 8:
                 return z3.Or(*[container.at(j) == v for j in range(n)]) if n else z3.BoolVal(False)
+            if getattr(container, "maxlen", None) is not None:
+                return z3.Or(*[z3.And(j < container.n, container.at(j) == v) for j in range(container.maxlen)])
             j = fresh("p")
             return z3.Exists([j], z3.And(0 <= j, j < container.n, container.at(j) == v))
         raise Unsupported(f"membership in {container!r}")
@@ -548,8 +552,12 @@ class Exec:
             return base.items[k]
         if isinstance(base, Mat):
             if isinstance(sl, ast.Tuple):
-                r_, c_ = [toint(self.ev(x, st)) for x in sl.elts]
+                r_ = toint(self.ev(sl.elts[0], st))
+                c_ = self.ev(sl.elts[1], st)
                 self.index_ok(st, r_, base.rows, line)
+                if isinstance(c_, Seq):                          # a[i, list of columns]: a copy of those entries of row i
+                    return self.fancy(st, base.row(r_), c_, line)
+                c_ = toint(c_)
                 self.index_ok(st, c_, base.cols, line)
                 return base.at(r_, c_)
             r_ = toint(self.ev(sl, st))
@@ -574,17 +582,7 @@ class Exec:
             self.may_raise(st, "TypeError", idxv.when, f"index-is-an-integer:{self.ordinal('idxt')}", line)
             idxv = idxv.value
         if isinstance(idxv, Seq) and base.kind == "nd":            # fancy indexing a[list of ints]: a copy
-            k = lit(idxv.n)
-            if k is None or k > 8:
-                raise Unsupported("fancy indexing with a symbolic-length index list")
-            vals = []
-            for q in range(k):
-                jq = idxv.at(q)
-                self.may_raise(st, "IndexError", z3.Or(jq < 0, jq >= base.n), f"index:{self.ordinal('idx')}", line)
-                vals.append(base.at(jq))
-            out = const_list(vals)
-            out.kind, out.dtype, out.elem = "nd", base.dtype, base.elem
-            return out
+            return self.fancy(st, base, idxv, line)
         if isinstance(idxv, MaskV) and base.kind == "nd":
             from pyvc import library
             return library.mask_select(self, st, base, idxv, line)
@@ -596,6 +594,23 @@ class Exec:
         if base.elem == "char":
             return Seq("str", "char", base.arr, iv(1), add(base.start, j), base.delta)
         return base.at(j)
+
+    def fancy(self, st, base, idxv, line):
+        from pyvc.library import small_len
+        k = small_len(idxv)
+        if k is None or k > 8:
+            raise Unsupported("fancy indexing with a symbolic-length index list")
+        vals = []
+        for q in range(k):
+            jq = idxv.at(q)
+            inr = (q < idxv.n) if lit(idxv.n) is None else z3.BoolVal(True)
+            self.may_raise(st, "IndexError", z3.And(inr, z3.Or(jq < 0, jq >= base.n)), f"index:{self.ordinal('idx')}", line)
+            vals.append(base.at(jq))
+        out = const_list(vals)
+        out.kind, out.dtype, out.elem, out.n = "nd", base.dtype, base.elem, idxv.n
+        if lit(idxv.n) is None:
+            out.maxlen = k
+        return out
 
     def index_ok(self, st, j, n, line):
         """numpy index into an axis of length n; negative (wrap-around) indices are not modelled: they are an obligation."""
@@ -647,16 +662,20 @@ class Exec:
             if isinstance(e.elt, ast.Subscript) and isinstance(e.elt.slice, ast.Name) and e.elt.slice.id == t:
                 table = self.ev(e.elt.value, st)
                 txt = getattr(table, "const", None)
-                n = lit(src.n)
+                from pyvc.library import small_len
+                n = small_len(src)
                 if txt is not None and n is not None and n <= 4:
                     vals = []
                     for j in range(n):
                         x = src.at(j)
-                        self.may_raise(st, "IndexError", z3.Or(x < -len(txt), x >= len(txt)), f"index:{self.ordinal('idx')}", e.lineno)
-                        st.assume(x >= 0)
+                        inr = (j < src.n) if lit(src.n) is None else z3.BoolVal(True)
+                        self.may_raise(st, "IndexError", z3.And(inr, z3.Or(x < -len(txt), x >= len(txt))), f"index:{self.ordinal('idx')}", e.lineno)
+                        self.prove(st, f"index-nonnegative:{self.ordinal('idxnn')}", z3.Implies(inr, x >= 0), e.lineno)
                         vals.append(self.table_lookup(txt, x))
                     out = const_list(vals)
                     out.elem = "char"
+                    out.n = src.n
+                    out.maxlen = n
                     return out
         raise Unsupported(f"list comprehension shape at line {e.lineno}")
 
@@ -838,7 +857,11 @@ class Exec:
             exc = s.exc.id
         if exc is None:
             raise Unsupported("raise of a computed exception")
-        return [Outcome("raise", st, exc=exc, line=s.lineno)]
+        k = self.ordinal("raise-site")
+        outs = []
+        for g in self.ghost(f"before_raise{k}", st):
+            outs.append(Outcome("raise", g, exc=exc, line=s.lineno))
+        return outs
 
     def st_Assert(self, s, st):
         """only in ghost code / harnesses: a proof hint (lemma application) or a harness assertion - proved, then assumed."""
@@ -1189,6 +1212,9 @@ class Exec:
         args = self.fn.args
         names = [a.arg for a in args.args]
         defaults = dict(zip(names[len(names) - len(args.defaults):], args.defaults))
+        for nme, shape in self.c.get("ghost_params", {}).items():       # universally quantified spec-only inputs
+            st.env[nme] = shapes.fresh_of(self, st, shape, nme)
+            self.ghost_names.add(nme)
         for nme in names:
             if nme == "self":
                 st.env["self"] = shapes.make_self(self, st)
@@ -1204,9 +1230,6 @@ class Exec:
             else:
                 st.env[nme] = shapes.fresh_of(self, st, shape, nme)
             self.param_objects[nme] = st.env[nme]
-        for nme, shape in self.c.get("ghost_params", {}).items():       # universally quantified spec-only inputs
-            st.env[nme] = shapes.fresh_of(self, st, shape, nme)
-            self.ghost_names.add(nme)
         self.old = dict(st.env)
         st.env["__old__"] = self.old
         for label, txt in self.c.get("requires", {}).items():
